@@ -3,6 +3,8 @@ import Toq.Model.MatrixPreds
 import Toq.Spec.MatrixOps
 import Toq.Proofs.Idx
 import Toq.Proofs.Cert
+import Mathlib.LinearAlgebra.Matrix.ToLin
+import Mathlib.LinearAlgebra.Matrix.Rank
 import Mathlib.Algebra.BigOperators.Group.Finset.Basic
 import Mathlib.Algebra.BigOperators.Group.Finset.Sigma
 import Mathlib.Algebra.BigOperators.Ring.Finset
@@ -833,5 +835,86 @@ theorem npsdCert_sound {n : Nat} (A : EMat n n) (x : EMat n 1) (μ : Rat) :
   have : ((((x.ct.mul ((A + EMat.scalar μ).mul x)).get ⟨0, by omega⟩ ⟨0, by omega⟩).re : Rat) : ℝ) < 0 := by
     exact_mod_cast h
   linarith
+
+end Toq.MatrixPreds
+
+/-! ## soundness of the rank / independence certificates -/
+
+namespace Toq.MatrixPreds
+open Matrix
+
+theorem linIndepCert_sound {d n : Nat} (V : EMat d n) (W : EMat n d) :
+    linIndepCert V W = true → LinearIndependent ℂ V.toM.col := by
+  intro h
+  have hE := EMat.beq_sound _ _ h
+  rw [EMat.toM_mul, EMat.toM_one] at hE
+  rw [← Matrix.mulVec_injective_iff]
+  intro x y hxy
+  have := congrArg (fun v => W.toM *ᵥ v) hxy
+  simp only [Matrix.mulVec_mulVec, hE, Matrix.one_mulVec] at this
+  exact this
+
+theorem beq_zero_iff {n m : Nat} (c : EMat n m) : c.beq EMat.zero = true ↔ ∀ i j, c.get i j = 0 := by
+  simp [EMat.beq, EMat.allFin_iff]
+
+theorem linDepCert_sound {d n : Nat} (V : EMat d n) (c : EMat n 1) :
+    linDepCert V c = true → ¬ LinearIndependent ℂ V.toM.col := by
+  intro h hli
+  simp only [linDepCert, Bool.and_eq_true, Bool.not_eq_true', Bool.not_eq_eq_eq_not, Bool.not_true] at h
+  obtain ⟨hc, hV⟩ := h
+  have hE := EMat.beq_sound _ _ hV
+  rw [EMat.toM_mul, EMat.toM_zero] at hE
+  rw [← Matrix.mulVec_injective_iff] at hli
+  have h0 : V.toM *ᵥ (fun k => c.toM k ⟨0, by omega⟩) = V.toM *ᵥ 0 := by
+    rw [Matrix.mulVec_zero]
+    ext a
+    have := congrFun (congrFun hE a) ⟨0, by omega⟩
+    simpa [Matrix.mul_apply, Matrix.mulVec, dotProduct] using this
+  have hz := hli h0
+  apply Bool.eq_false_iff.mp hc
+  rw [beq_zero_iff]
+  intro i j
+  have hj : j = ⟨0, by omega⟩ := Fin.ext (by omega)
+  subst hj
+  have := congrFun hz i
+  simp only [EMat.toM_apply, Pi.zero_apply] at this
+  exact QI.toC_injective (by rw [this]; apply Complex.ext <;> simp)
+
+
+theorem rankCert_sound {R C r k : Nat} (S : EMat R C) (P : EMat r R) (Q : EMat C r) (N : EMat C k) (M : EMat k C) :
+    rankCert S P Q N M = true → S.toM.rank = r ∧ Module.finrank ℂ (LinearMap.ker S.toM.mulVecLin) = k := by
+  intro h
+  simp only [rankCert, Bool.and_eq_true, decide_eq_true_eq] at h
+  obtain ⟨⟨⟨hrk, hP⟩, hN⟩, hM⟩ := h
+  have eP := EMat.beq_sound _ _ hP
+  have eN := EMat.beq_sound _ _ hN
+  have eM := EMat.beq_sound _ _ hM
+  rw [EMat.toM_mul, EMat.toM_mul, EMat.toM_one] at eP
+  rw [EMat.toM_mul, EMat.toM_zero] at eN
+  rw [EMat.toM_mul, EMat.toM_one] at eM
+  -- rank S ≥ r
+  have h1 : r ≤ S.toM.rank := by
+    have : (1 : Matrix (Fin r) (Fin r) ℂ).rank = r := by rw [Matrix.rank_one]; simp
+    calc r = (1 : Matrix (Fin r) (Fin r) ℂ).rank := this.symm
+      _ = (P.toM * (S.toM * Q.toM)).rank := by rw [eP]
+      _ ≤ (S.toM * Q.toM).rank := Matrix.rank_mul_le_right _ _
+      _ ≤ S.toM.rank := Matrix.rank_mul_le_left _ _
+  -- rank N = k
+  have h2 : k ≤ N.toM.rank := by
+    have : (1 : Matrix (Fin k) (Fin k) ℂ).rank = k := by rw [Matrix.rank_one]; simp
+    calc k = (1 : Matrix (Fin k) (Fin k) ℂ).rank := this.symm
+      _ = (M.toM * N.toM).rank := by rw [eM]
+      _ ≤ N.toM.rank := Matrix.rank_mul_le_right _ _
+  -- range N ≤ ker S
+  have h3 : LinearMap.range N.toM.mulVecLin ≤ LinearMap.ker S.toM.mulVecLin := by
+    rintro _ ⟨v, rfl⟩
+    rw [LinearMap.mem_ker, Matrix.mulVecLin_apply, Matrix.mulVecLin_apply, Matrix.mulVec_mulVec, eN, Matrix.zero_mulVec]
+  have h4 : k ≤ Module.finrank ℂ (LinearMap.ker S.toM.mulVecLin) :=
+    le_trans h2 (Submodule.finrank_mono h3)
+  have h5 := LinearMap.finrank_range_add_finrank_ker S.toM.mulVecLin
+  have h6 : Module.finrank ℂ (Fin C → ℂ) = C := by simp
+  rw [h6] at h5
+  have h7 : S.toM.rank = Module.finrank ℂ (LinearMap.range S.toM.mulVecLin) := rfl
+  omega
 
 end Toq.MatrixPreds
